@@ -25,7 +25,7 @@ PINNED = {
     "C05": ["c05_bytes_eqb_iff", "c05_udiff_render_eq_print_gen", "c05_udiff_render_eq_print", "c05_udiff_applies", "c05_udiff_applies_strict", "c05_udiff_render_applies", "c05_udiff_empty_iff_no_change", "c05_udiff_empty_equal", "c05_udiff_empty_iff_equal", "c05_udiff_header_once", "c05_marker_exactly", "c05_marker_exactly_body", "c05_ends_with_newline_spec", "c05_writer_bytes", "c05_lossy_app_sep", "c05_lossy_ascii", "c05_display_eq_lossy_writer", "c05_parse_sound", "c05_parse_check_meaning", "c05_parse_print", "c05_parse_print_nohint", "c05_text_render_parse_applies", "c05_render_parse_applies_nohint"],
     "C06": ["c06_Chars_unfold", "c06_decode_partition", "c06_decode_valid_len", "c06_decode_newline_char", "c06_decode_newline_byte", "c06_tok_bytes_ok", "c06_tok_str_ok", "c06_tok_str_bytes_agree", "c06_tokenize_lines_str_bytes", "c06_check_partition_lossless", "c06_tokenize_bytes_lossless", "c06_tokenize_str_lossless", "c06_line_shape_sound", "c06_check_chars_shape_iff"],
     "C07": ["c07_myers_valid_any_clock", "c07_myers_completes_any_clock", "c07_lcs_valid_any_clock", "c07_lcs_completes_any_clock", "c07_snake_none_only_by_deadline", "c07_alg_parametric", "c07_never_expire_raw", "c07_never_expire_capture", "c07_never_expire_textdiff", "c07_never_expire_ctr", "c07_none_no_probe", "c07_post_expiry_bound", "c07_post_bound_values", "c07_post_expiry_bound_any_alg", "c07_clock_at_mono"],
-    "C08": ["c08_myers_finish_last", "c08_lcs_finish_last", "c08_replace_acts_by_emitting", "c08_replace_inner_failure", "c08_compact_hook", "c08_no_finish_forwards", "c08_no_finish_body", "c08_default_replace", "c08_default_replace_trace"],
+    "C08": ["c08_myers_finish_last", "c08_lcs_finish_last", "c08_replace_acts_by_emitting", "c08_replace_inner_failure", "c08_compact_hook", "c08_no_finish_forwards", "c08_no_finish_body", "c08_default_replace", "c08_default_replace_trace", "c08_compact_hook_events", "c08_replace_over_compact"],
     "C09": ["c09_capture_alternating", "c09_replace_alternates", "c09_checker_reflects", "c09_capture_normal_form", "c09_capture_insert_latest", "c09_compact_replace_normal_form", "c09_needs_nonempty"],
     "C10": ["c10_compact_preserves", "c10_compact_terminates", "c10_compact_total", "c10_compact_hook", "c10_delete_never_slides_up", "c10_replace_exact", "c10_compact_exact_repaired"],
     "C11": ["c11_exact_repaired", "c11_exact_outside_known_class", "c11_replace_exact", "c11_compact_exact_repaired", "c11_checker_reflects", "c11_refuted"],
